@@ -18,7 +18,17 @@ func init() { RegisterExtra("C13", c13LeaderTableKeys) }
 // the reply is not its shard: a shard without a leader is simply absent from the reply.
 func c13LeaderTableKeys(c *eng.Ctx) {
 	c.Rule("R6", "leader table keyed by the reported shard id: in clientSets.sync a reported endpoint's Leader is stored / marked ready only under a key derived from the ShardID of the same endpoint, and the table is read under such a key", 3)
-	sy := c.MustMethod(pkgClientsets, "clientSets", "sync")
+	// clientSets.sync by name, or the function that records the reported leaders
+	sy := c13Anchor(c, pkgClientsets, "clientSets", "sync", func(fn *ssa.Function) bool {
+		for _, rf := range c.W.Region(fn) {
+			for _, ci := range eng.CallsTo(rf, "(*sync.Map).Store") {
+				if eng.FieldAddrOf(eng.Receiver(ci), pkgClientsets+".clientSets", "leaderEndpoints") {
+					return len(eng.Current.LiftSites(fn)) == 0
+				}
+			}
+		}
+		return false
+	})
 	if sy == nil {
 		return
 	}
